@@ -171,6 +171,9 @@ type mtor struct {
 	// history abstractions that make the canonical state sound for de-duplication
 	EverStarted bool // has been running at least once (has a piece bitfield)
 	Loaded      bool // object was created by loading the resume record (not by an add in this session)
+	// the record says started, but the session was opened with ResumeOnStartup=false: the flag is the user's
+	// intent and stays, the torrent does not run until Start
+	Idle bool
 }
 
 type model struct {
@@ -223,7 +226,7 @@ func (m *model) key(base int) string {
 			name = fmt.Sprintf("auto%d", autoN)
 		}
 		owned[t.Port] = true
-		ents = append(ents, fmt.Sprintf("%s|p%d|s%v|t%d|n%s|e%v|l%v", name, t.Port-base, t.Started, len(t.Trackers), t.Name, t.EverStarted, t.Loaded))
+		ents = append(ents, fmt.Sprintf("%s|p%d|s%v|t%d|n%s|e%v|l%v|i%v", name, t.Port-base, t.Started, len(t.Trackers), t.Name, t.EverStarted, t.Loaded, t.Idle))
 	}
 	sort.Strings(ents)
 	var free []string
@@ -255,6 +258,13 @@ func (m *model) nextOps() []op {
 		}
 	}
 	out = append(out, op{K: "compact"}, op{K: "reopen"})
+	for _, w := range m.Live {
+		if w.Started {
+			// restart without resume-on-startup (differs from reopen only if something is started)
+			out = append(out, op{K: "reopenN"})
+			break
+		}
+	}
 	if m.find("a") != nil {
 		out = append(out, op{K: "reopenX"})
 	}
@@ -420,6 +430,7 @@ type runner struct {
 	step    int // number of ops applied so far
 	nComp   int
 	settleN int
+	noResume bool // the next doReopen opens the session with ResumeOnStartup=false
 }
 
 const (
@@ -645,8 +656,8 @@ func (r *runner) compareTorrent(pfx string, w *mtor, t *torrent.Torrent, withSta
 			r.res.Harness = fmt.Sprintf("history %s: %s stopped with error %q (environment problem)", histString(r.hist[:r.step]), who, g.Err)
 			return
 		}
-		if g.started() != w.Started {
-			r.fail(pfx+".started", "%s: status %s but started flag should be %v", who, g.Status, w.Started)
+		if g.started() != (w.Started && !w.Idle) {
+			r.fail(pfx+".started", "%s: status %s but started flag is %v (session resumed on startup: %v)", who, g.Status, w.Started, !w.Idle)
 		}
 	}
 }
@@ -778,6 +789,7 @@ func (r *runner) apply(o op) {
 			}
 			r.cnt("start")
 			w.Started = true
+			w.Idle = false
 			w.EverStarted = true
 			r.settle(t, "running", running(w.HasInfo))
 		case "stop":
@@ -787,6 +799,7 @@ func (r *runner) apply(o op) {
 			}
 			r.cnt("stop")
 			w.Started = false
+			w.Idle = false
 			r.settle(t, "stopped", stopped)
 		case "trk":
 			uri := trackerURI(o.T, len(w.Trackers))
@@ -800,6 +813,9 @@ func (r *runner) apply(o op) {
 	case "compact":
 		r.doCompact()
 	case "reopen":
+		r.doReopen(true)
+	case "reopenN":
+		r.noResume = true
 		r.doReopen(true)
 	case "reopenX":
 		r.doReopenRefused()
@@ -899,6 +915,7 @@ func (r *runner) doReopenRefused() {
 	r.m.remove(w)
 	for _, x := range r.m.Live {
 		if x.Started {
+			x.Idle = false
 			if t := r.s.GetTorrent(x.ID); t != nil {
 				x.EverStarted = true
 				r.settle(t, "running after restart", running(x.HasInfo))
@@ -922,13 +939,21 @@ func (r *runner) doReopen(counted bool) {
 		}
 		return
 	}
-	if err := r.openSession(); err != nil {
+	noResume := r.noResume
+	r.noResume = false
+	r.cfg.ResumeOnStartup = !noResume
+	err := r.openSession()
+	r.cfg.ResumeOnStartup = true
+	if err != nil {
 		r.fail("C14.seq.reopen.error", "NewSession on the same database: %v", err)
 		r.res.Harness = "cannot continue: " + err.Error()
 		return
 	}
 	if counted {
 		r.cnt("reopen")
+	}
+	if noResume {
+		r.cnt("reopen_noresume")
 	}
 	if inv := r.s.VerifC14InvalidIDs(); len(inv) > 0 {
 		r.fail("C14.seq.restart.unloadable", "records %q could not be loaded after restart", inv)
@@ -947,7 +972,10 @@ func (r *runner) doReopen(counted bool) {
 		// exact: ResumeOnStartup starts a torrent synchronously inside NewSession; one that is Stopped
 		// without an error right after NewSession was not started.
 		st := t.Stats()
-		if w.Started && st.Status == torrent.Stopped && st.Error == nil {
+		w.Idle = noResume && w.Started
+		if w.Idle {
+			// not resumed: must be Stopped (compareTorrent), the record keeps the flag (checked at the next Close)
+		} else if w.Started && st.Status == torrent.Stopped && st.Error == nil {
 			r.fail("C14.seq.restart.started", "torrent %s (id %q) was started before the restart and is Stopped after it", w.Slot, w.ID)
 		} else if w.Started {
 			w.EverStarted = true
@@ -1252,9 +1280,9 @@ func TestC14Seq(t *testing.T) {
 	}
 	rep.Rule = fmt.Sprintf("operation histories on a real torrent.Session with a 3-port range; alphabet = AddTorrent{id a (stopped, opts), id b (started), auto id}, AddURI{magnet id m}, "+
 		"failing adds {garbage bytes, garbage magnet, storage-provider error via AddTorrent and via AddURI; duplicate id and no-free-port arise from state}, "+
-		"RemoveTorrent{a,b,m,first auto} x {keep,delete} (also of absent ids), Start/Stop/AddTracker on each live target, CompactDatabase (+load the compacted file in a second session), Close+NewSession, Close+NewSession with a storage provider that refuses torrent a (record reads fine, cannot be loaded: session without it, id reported invalid, no port held) + CleanDatabase + plain restart. "+
+		"RemoveTorrent{a,b,m,first auto} x {keep,delete} (also of absent ids), Start/Stop/AddTracker on each live target, CompactDatabase (+load the compacted file in a second session), Close+NewSession, Close+NewSession with a storage provider that refuses torrent a (record reads fine, cannot be loaded: session without it, id reported invalid, no port held) + CleanDatabase + plain restart, Close+NewSession without resume-on-startup (started torrents stay Stopped, their started flag stays true until Stop). "+
 		"Enumerated: every applicable sequence of length <= %d without de-duplication, plus every sequence of length <= %d after the full-house prefix [addT:a addT:b addM:m]; "+
-		"thorough adds a BFS to depth %d in which a state (sorted (slot, port offset, started, #trackers, name, ever-ran, loaded-from-db) + free ports) is expanded once. "+
+		"thorough adds a BFS to depth %d in which a state (sorted (slot, port offset, started, #trackers, name, ever-ran, loaded-from-db, not-resumed) + free ports) is expanded once. "+
 		"Every history runs on a fresh database and temp dir; all oracles run after every operation; an implicit Close+reopen+compare ends every history. distinct = distinct canonical states.",
 		seqDepth, fullHouseDepth, bfsDepth)
 	rep.Assumptions = []string{
@@ -1395,7 +1423,7 @@ func TestC14Seq(t *testing.T) {
 	}
 	rep.Extra["distinct_operations_used"] = int64(len(opClasses))
 	rep.Extra["bounds"] = fmt.Sprintf("all sequences<=%d; full-house prefix + <=%d; dedup BFS depth %d; ports=3", seqDepth, fullHouseDepth, bfsDepth)
-	for _, k := range []string{"add_ok", "add_failed_garbage", "add_failed_storage", "add_failed_dup", "add_failed_noport", "rm_live", "rm_absent", "start", "stop", "addtracker", "reopen", "reopen_refused", "restart_compared"} {
+	for _, k := range []string{"add_ok", "add_failed_garbage", "add_failed_storage", "add_failed_dup", "add_failed_noport", "rm_live", "rm_absent", "start", "stop", "addtracker", "reopen", "reopen_refused", "reopen_noresume", "restart_compared"} {
 		if totals[k] == 0 {
 			rep.Vacuous("vacuous: counter %s is zero", k)
 		}
